@@ -60,6 +60,16 @@ RULE = (
     "glued in reverse order: each request is judged by the same outcome table, must return or raise within the "
     "documented timeouts (10 s + 60 s + 10 s slack, else request-never-finished), no two requests get the same "
     "connection, registry == the returned connections, no waiter / socket / task left. "
+    "Role 'reuse' = the re-use path in front of create_peer_connection (Network.get_peer_connection / "
+    "send_peer_messages) with an earlier P/D connection to the peer (made by us or by the peer) that is being closed "
+    "(EOF / reset by the peer, local disconnect) while a listener of its CLOSING report suspends for 0 / 300 ms "
+    "(drawn: up to 1.5 s): calls before the close, in the first iterations / middle / end of the CLOSING window and "
+    "right after CLOSED, x peer reachable directly / only indirectly / not at all. The state of the earlier connection "
+    "is read in the same step in which the library looks at its connections: CONNECTED -> re-use is right (the message "
+    "/ probe must arrive when the peer had not closed yet); CLOSING / CLOSED -> that connection must not be handed "
+    "out, a new usable connection (or delivery of the message to the peer) is owed iff a path works, else "
+    "PeerConnectionError -- never a silent drop; afterwards the earlier connection is CLOSED and unregistered and "
+    "nothing but the new connection remains. "
     "Reverse role: the peer observed PeerPierceFirewall(ticket) "
     "xor the server observed CannotConnect.Request(ticket, peer), success leaves exactly that initialised usable "
     "connection, failure leaves nothing; no connect task remains. Non-trivial = the other attempt was still pending "
@@ -171,12 +181,35 @@ def _sanitise_multi(case):
             'prefer_obf': False, 'ev_hops': _int(case.get('ev_hops', 0), 0, 3, 0)}
 
 
+def _sanitise_reuse(case):
+    d = case.get('direct') if isinstance(case.get('direct'), dict) else {}
+    i = case.get('indirect') if isinstance(case.get('indirect'), dict) else {}
+    call = case.get('call') if isinstance(case.get('call'), dict) else {}
+    api = _pick(case.get('api'), ('get', 'send'), 'get')
+    return {
+        'role': 'reuse', 'mode': _pick(case.get('mode'), ('fallback', 'race'), 'fallback'),
+        'typ': 'P' if api == 'send' else _pick(case.get('typ'), ('P', 'D'), 'P'),
+        'api': api, 'how': _pick(case.get('how'), ('out', 'in'), 'out'),
+        'close': _pick(case.get('close'), ('eof', 'reset', 'local'), 'eof'),
+        'hold_ms': _int(case.get('hold_ms', 0), 0, 2000, 0),
+        'call': {'phase': _pick(call.get('phase'), ('before', 'inside', 'after'), 'inside'),
+                 'ms': _int(call.get('ms', 0), 0, 2000, 0), 'hops': _int(call.get('hops', 0), 0, MAX_HOPS, 0)},
+        'direct': {'kind': _pick(d.get('kind'), ('accept', 'refuse'), 'accept'), 'ms': _int(d.get('ms', 2), 1, 200, 2),
+                   'port': 70000},
+        'indirect': {'kind': _pick(i.get('kind'), ('pierce', 'cannot', 'silent'), 'silent'),
+                     'ms': _int(i.get('ms', 2), 1, 200, 2), 'obf': bool(i.get('obf')), 'cc_ms': 2, 'glue': False},
+        'prefer_obf': False, 'ev_hops': _int(case.get('ev_hops', 0), 0, 3, 0),
+    }
+
+
 def _sanitise(case):
     if not isinstance(case, dict):
         return None
-    role = _pick(case.get('role'), ('request', 'reverse', 'multi'), 'request')
+    role = _pick(case.get('role'), ('request', 'reverse', 'multi', 'reuse'), 'request')
     if role == 'multi':
         return _sanitise_multi(case)
+    if role == 'reuse':
+        return _sanitise_reuse(case)
     d = case.get('direct') if isinstance(case.get('direct'), dict) else {}
     i = case.get('indirect') if isinstance(case.get('indirect'), dict) else {}
     c = {
@@ -584,8 +617,13 @@ def _setup_network(world, c, race):
         for _ in range(ev_hops):
             await asyncio.sleep(0)
 
+    hold = c.setdefault('_hold', {'conn': None, 's': 0.0})     # role 'reuse': a slow listener of one connection's CLOSING
+
     async def on_state(event):
         states.append((loop.time(), event.connection, event.state, event.close_reason))
+        if hold['conn'] is not None and event.connection is hold['conn'] and hold['s'] > 0 and \
+                event.state.name == 'CLOSING':
+            await asyncio.sleep(hold['s'])
     bus.register(MessageReceivedEvent, on_msg)
     bus.register(PeerInitializedEvent, on_init)
     bus.register(ConnectionStateChangedEvent, on_state)
@@ -1272,6 +1310,226 @@ def _run_multi(c) -> CaseResult:
     return res
 
 
+# ---------------------------------------------------------------------------
+# role 'reuse': a request through the re-use path while an earlier connection to the peer is being closed
+
+REUSE_CLOSE_AT_MS = 300.0
+
+
+def _run_reuse(c) -> CaseResult:
+    res = CaseResult()
+    from aioslsk.exceptions import PeerConnectionError
+    from aioslsk.network.connection import CloseReason, ConnectionState, PeerConnection
+    M = simworld.M()
+    typ, api = c['typ'], c['api']
+    model = _model({'addr': 'lookup', 'mode': c['mode'], 'cancel_ms': None, 'direct': c['direct'],
+                    'indirect': c['indirect']})
+    local = c['close'] == 'local'
+    arrive = REUSE_CLOSE_AT_MS + (0.0 if local else 1.0)        # our side starts closing (CLOSING reported)
+    phase = c['call']['phase']
+    if phase == 'before':
+        call_ms = max(0.0, REUSE_CLOSE_AT_MS - 250.0)
+    elif phase == 'inside':
+        call_ms = arrive + min(c['call']['ms'], c['hold_ms'])
+    else:
+        call_ms = arrive + c['hold_ms'] + c['call']['ms']
+    obs = _Observer()
+    facts = obs.facts
+    message = M.PeerPlaceInQueueReply.Request('c11-reuse', 5)
+
+    async def main(world: simworld.World):
+        loop = world.loop
+        settings, network, received, inits, states, keep = _setup_network(world, c, c['mode'] == 'race')
+        await network.initialize()
+        network.server_connection.start_reader_task()
+        server_link = world.net.links[0]
+        Peer = _make_peer_class()
+        peer = Peer(world, PEER_NAME, PEER_IP, port=CLEAR_PORT, obf_port=0, direct='accept', direct_delay=0.002,
+                    indirect='silent')
+        peer.pierce_obf = c['indirect']['obf']
+        world.peers[PEER_NAME] = peer
+        await asyncio.sleep(0.01)
+        # the earlier connection
+        if c['how'] == 'out':
+            old = await asyncio.wait_for(network.create_peer_connection(PEER_NAME, typ), 30.0)
+        else:
+            peer.connect(typ, port=MY_PORTS[0])
+            await asyncio.sleep(0.02)
+            old = next((cn for cn in network.peer_connections if cn.username == PEER_NAME), None)
+        await asyncio.sleep(0.05)
+        if old is None or old.state != ConnectionState.CONNECTED:
+            facts['setup_failed'] = repr(old)
+            await network.disconnect()
+            return
+        old_link = peer.links[-1]
+        c['_hold']['conn'], c['_hold']['s'] = old, c['hold_ms'] / 1000.0
+        # how the peer behaves for a NEW connection
+        peer.set_direct(c['direct']['kind'], c['direct']['ms'] / 1000.0)
+        peer.indirect, peer.indirect_delay = c['indirect']['kind'], c['indirect']['ms'] / 1000.0
+        t0 = loop.time()
+        local_close = []
+
+        def start_close():
+            if c['close'] == 'eof':
+                old_link.ep.close()
+            elif c['close'] == 'reset':
+                old_link.ep.reset()
+            else:
+                local_close.append(asyncio.ensure_future(old.disconnect(CloseReason.REQUESTED)))
+        loop.call_at(t0 + REUSE_CLOSE_AT_MS / 1000.0, start_close)
+
+        async def call():
+            # no suspension between this observation and the library's own look at its connections
+            facts['state_at_call'] = old.state.name
+            facts['closed_by_peer_at_call'] = old_link.ep.closed
+            facts['called_ms'] = (loop.time() - t0) * 1000.0
+            if api == 'get':
+                return await network.get_peer_connection(PEER_NAME, typ)
+            return await network.send_peer_messages(PEER_NAME, message)
+        holder = []
+        loop.call_at(t0 + call_ms / 1000.0, _after_hops, loop, c['call']['hops'],
+                     lambda: holder.append(asyncio.ensure_future(call())))
+        await asyncio.sleep(call_ms / 1000.0 + 0.0001)
+        await simloop.step(c['call']['hops'] + 2)
+        task = holder[0]
+        bound = (CONNECT_TIMEOUT_MS + INDIRECT_TIMEOUT_MS) / 1000.0 + 10.0
+        await asyncio.wait([task], timeout=bound)
+        facts['done_ms'] = (loop.time() - t0) * 1000.0
+        new = None
+        if not task.done():
+            facts['outcome'] = ('never',)
+            task.cancel()
+            await asyncio.wait([task], timeout=1.0)
+        elif task.cancelled():
+            facts['outcome'] = ('cancelled',)
+        elif task.exception() is not None:
+            exc = task.exception()
+            facts['outcome'] = ('raised', type(exc).__name__, repr(exc)[:200], isinstance(exc, PeerConnectionError))
+        elif api == 'get':
+            got = task.result()
+            if isinstance(got, PeerConnection):
+                facts['outcome'] = ('returned', 'old' if got is old else ('indirect' if got.incoming else 'direct'))
+                facts['returned_state'] = got.state.name
+                facts['returned_repr'] = repr(got)
+                new = got if got is not old else None
+                facts['returned_old'] = got is old
+            else:
+                facts['outcome'] = ('returned-no-connection', repr(got)[:200])
+        else:
+            facts['outcome'] = ('sent',)
+
+        async def keepalive_job():
+            while True:
+                await asyncio.sleep(KEEPALIVE_S)
+                _keepalive(peer)
+        keepalive_task = asyncio.ensure_future(keepalive_job())
+        if api == 'get' and task.done() and not task.cancelled() and task.exception() is None and \
+                isinstance(task.result(), PeerConnection):
+            got = task.result()
+            sub = _Observer()
+            if got is not old:
+                _check_connection_fields(sub, got, typ, network)
+            await _check_usable(world, loop, sub, got, peer, typ, received, loop.time(), salt=3)
+            facts['usable_problems'] = sub.problems
+        await asyncio.sleep(0.1)
+        facts['message_links'] = [k for k, l in enumerate(peer.links) if any(m == message for _, m in l.messages)]
+        # let the old connection finish closing, then quiescence
+        await asyncio.sleep(max(0.0, (arrive + c['hold_ms'] + 200.0) / 1000.0 - (loop.time() - t0)))
+        await asyncio.sleep(HORIZON_S)
+        facts['old_final'] = (old.state.name, old in network.peer_connections)
+        others = [cn for cn in network.peer_connections if cn is not old]
+        if api == 'send':
+            new = others[0] if len(others) == 1 else None
+        facts['registry_final'] = [repr(cn) for cn in network.peer_connections]
+        owned = [cn for cn in ([new] if new is not None else [])]
+        obs.residue += _snapshot(world, network, 'final', None, None, server_link, True, owned=owned)
+        if new is not None and (new not in network.peer_connections or new.state != ConnectionState.CONNECTED):
+            facts['new_lost'] = repr(new)
+        keepalive_task.cancel()
+        await network.disconnect()
+        del keep
+
+    _, loop_errors = simworld.run_world(main)
+    c.pop('_hold', None)
+    if 'setup_failed' in facts or 'outcome' not in facts:
+        res.label('reuse:setup-failed')
+        return res
+    o = facts['outcome']
+    at_call = facts['state_at_call']
+    info = (f'api={api} typ={typ} mode={c["mode"]} earlier connection {c["how"]}, closed by {c["close"]} at '
+            f'{REUSE_CLOSE_AT_MS:.0f} ms, CLOSING listener holds {c["hold_ms"]} ms; call at {facts["called_ms"]:.1f} ms '
+            f'(+{c["call"]["hops"]} iterations) saw it {at_call}; peer direct={c["direct"]["kind"]} '
+            f'indirect={c["indirect"]["kind"]}; outcome={o[:3]} returned={facts.get("returned_repr")} '
+            f'message on links={facts.get("message_links")} old finally={facts.get("old_final")}')
+    ctx = f'{api}:{at_call.lower()}'
+    reusable = at_call == 'CONNECTED'
+    tag = None
+    if o[0] == 'never':
+        res.violate(f'C11/request-never-finished:{c["mode"]}:reuse:{ctx}', info)
+    elif o[0] in ('cancelled', 'returned-no-connection'):
+        res.violate(f'C11/unexpected-outcome:{c["mode"]}:{o[0]}:reuse:{ctx}', info)
+    elif o[0] == 'raised':
+        if o[3]:
+            tag = 'error'
+        else:
+            res.violate(f'C11/unexpected-exception:{o[1]}@{"get_peer_connection" if api == "get" else "send_peer_messages"}'
+                        f':reuse:{ctx}', info)
+    elif o[0] == 'returned':
+        tag = o[1]
+    else:
+        tag = 'sent'
+    if reusable:
+        # the earlier connection was still CONNECTED when the library looked: re-using it is right; the message must
+        # arrive unless the peer had closed its side already (data racing with the close is lost by TCP, not by us)
+        if tag == 'error':
+            res.violate(f'C11/reuse:failed-although-connected:{ctx}', info)
+        if api == 'get' and tag not in (None, 'old', 'error'):
+            res.label('reuse:new-connection-although-connected')
+        if not facts['closed_by_peer_at_call'] and phase == 'before':
+            if api == 'send' and tag == 'sent' and not facts['message_links']:
+                res.violate(f'C11/reuse:message-not-delivered:{ctx}', info)
+            for suffix, detail in facts.get('usable_problems', []):
+                res.violate(f'C11/{suffix}:reuse:{ctx}', f'{detail} | {info}')
+    else:
+        # CLOSING / CLOSED: that connection is gone for new work -- a new one is owed iff a path works
+        if api == 'get' and tag == 'old':
+            res.violate(f'C11/reuse:returned-connection-that-is-closing:{ctx}', info)
+        elif tag == 'error':
+            if model['allowed'] != {'error'}:
+                res.violate(f'C11/failed-although-path-works:{c["mode"]}:{"+".join(model["works"])}:reuse:{ctx}', info)
+        elif tag in ('direct', 'indirect'):
+            if tag not in model['allowed']:
+                kind = 'succeeded-although-no-path' if model['allowed'] == {'error'} else 'unexpected-winner'
+                res.violate(f'C11/{kind}:{c["mode"]}:reuse:{ctx}', info)
+            for suffix, detail in facts.get('usable_problems', []):
+                res.violate(f'C11/{suffix}:reuse:{ctx}', f'{detail} | {info}')
+        elif tag == 'sent':
+            if model['allowed'] == {'error'}:
+                res.violate(f'C11/succeeded-although-no-path:{c["mode"]}:reuse:{ctx}', info)
+            elif not facts['message_links']:
+                # no error was raised, so the message has to have reached the peer
+                res.violate(f'C11/reuse:message-dropped-without-error:{ctx}', info)
+        t_lim = max(list(model['t_exp'].values()) + [model['t_ret']])
+        if tag is not None and facts['done_ms'] > facts['called_ms'] + t_lim + LATE_MS:
+            res.violate(f'C11/late-completion:{c["mode"]}:reuse:{ctx}', info)
+    if facts.get('old_final') != ('CLOSED', False):
+        res.violate(f'C11/residue:earlier-connection-not-closed:reuse:{c["close"]}', info)
+    if 'new_lost' in facts:
+        res.violate(f'C11/returned-connection-lost:reuse:{ctx}', f'{facts["new_lost"]} | {info}')
+    seen = set()
+    for label, what, detail, _ in obs.residue:
+        kind = f'C11/residue:{what}:reuse:{ctx}'
+        if kind not in seen:
+            seen.add(kind)
+            res.violate(kind, f'{label}: {detail} | {info}')
+    _loop_error_violations(res, loop_errors, 'reuse')
+    res.nontrivial = not reusable
+    res.label('role:reuse', 'mode:' + c['mode'], 'reuse-api:' + api, 'reuse-earlier:' + c['how'],
+              'reuse-close:' + c['close'], 'reuse-state-at-call:' + at_call, 'reuse-outcome:' + str(tag or o[0]),
+              'reuse-phase:' + phase, 'reuse-hold:' + ('0' if not c['hold_ms'] else 'slow-listener'), 'typ:' + typ)
+    return res
+
+
 def run_case(case) -> CaseResult:
     c = _sanitise(case)
     if c is None:
@@ -1280,6 +1538,8 @@ def run_case(case) -> CaseResult:
         return _run_reverse(c)
     if c['role'] == 'multi':
         return _run_multi(c)
+    if c['role'] == 'reuse':
+        return _run_reuse(c)
     return _run_request(c)
 
 
@@ -1430,6 +1690,25 @@ def table():
                     v['c_hops'] = c_hops
                     v['ev_hops'] = (k + c_hops) % 2
                     out.append(v)
+    # 4b2. both attempts succeed in the same instant (the race then disconnects the second winner) and the request is
+    #      cancelled 0..8 iterations later: covers cancellation while the redundant connection is being closed
+    for dkind, d_ms in (('accept', 3), ('accept', 1500)):
+        base = _aligned(_base_case('race', dkind, d_ms, 'pierce', 3 if d_ms < 1000 else 1500, n))
+        n += 1
+        if base is None:
+            continue
+        m = _model(_sanitise(base))
+        for side in ('d_hops', 'i_hops'):
+            for k in range(0, 7):
+                if k == 0 and side == 'i_hops':
+                    continue
+                for c_hops in range(0, 9):
+                    v = dict(base)
+                    v[side] = k
+                    v['cancel_ms'] = int(m['t_ret'])
+                    v['c_hops'] = c_hops
+                    v['ev_hops'] = (k + c_hops) % 2
+                    out.append(v)
     # 4c. the peer pierces AND the server relays CannotConnect for the same ticket: clearly ordered either way, and
     #     in the same instant swept over iteration offsets on either delivery (both orders), with a yielding listener,
     #     with a first message glued to the pierce message, and with the request cancelled in that instant
@@ -1521,6 +1800,32 @@ def table():
                             out.append({'role': 'multi', 'mode': mode, 'glue': glue, 'reverse_replies': rev,
                                         'requests': reqs, 'ev_hops': n % 2})
                             n += 1
+    # 4f. the re-use path (get_peer_connection / send_peer_messages) while an earlier connection to the peer is being
+    #     closed (EOF / reset by the peer, local disconnect) under a listener that is slow to handle CLOSING: calls
+    #     before the close, inside the CLOSING window (first iterations, middle, end) and right after CLOSED
+    behaviours = [({'kind': 'accept', 'ms': 3}, {'kind': 'silent', 'ms': 1}),
+                  ({'kind': 'refuse', 'ms': 3}, {'kind': 'pierce', 'ms': 20}),
+                  ({'kind': 'refuse', 'ms': 3}, {'kind': 'cannot', 'ms': 20})]
+    for mode in ('fallback', 'race'):
+        for api in ('get', 'send'):
+            for how in ('out', 'in'):
+                for close in ('eof', 'reset', 'local'):
+                    for hold in (0, 300):
+                        calls = [('before', 0, 0, None)]
+                        if hold:
+                            calls += [('inside', ms, 0, None) for ms in (1, 150, 299)]
+                        calls += [('after', ms, 0, None) for ms in (1, 50)]
+                        calls += [('inside', 0, h, n + h) for h in range(0, 7)]
+                        calls += [('after', 0, h, n + h + 1) for h in range(0, 7)]
+                        for phase, ms, hops, rot in calls:
+                            for b, (d, i) in enumerate(behaviours):
+                                if rot is not None and b != rot % len(behaviours):
+                                    continue
+                                out.append({'role': 'reuse', 'mode': mode, 'api': api, 'how': how, 'close': close,
+                                            'hold_ms': hold, 'typ': 'D' if (api == 'get' and n % 3 == 0) else 'P',
+                                            'call': {'phase': phase, 'ms': ms, 'hops': hops},
+                                            'direct': dict(d), 'indirect': dict(i, obf=n % 4 == 0), 'ev_hops': 0})
+                                n += 1
     # 5. reverse role
     for dkind in REV_DIRECT:
         if dkind == 'badport':
@@ -1637,6 +1942,24 @@ def multi_strategy(draw):
             'ev_hops': draw(st.sampled_from([0, 0, 1]))}
 
 
+@st.composite
+def reuse_strategy(draw):
+    hold = draw(st.sampled_from([0, 0, 1, 20, 300, 1500]))
+    return {
+        'role': 'reuse', 'mode': draw(st.sampled_from(['fallback', 'race'])),
+        'api': draw(st.sampled_from(['get', 'send'])), 'typ': draw(st.sampled_from(['P', 'P', 'D'])),
+        'how': draw(st.sampled_from(['out', 'in'])), 'close': draw(st.sampled_from(['eof', 'reset', 'local'])),
+        'hold_ms': hold,
+        'call': {'phase': draw(st.sampled_from(['before', 'inside', 'inside', 'after'])),
+                 'ms': draw(st.sampled_from([0, 0, 1, 2])) if draw(st.booleans()) else draw(st.integers(0, max(1, hold))),
+                 'hops': draw(_hops)},
+        'direct': {'kind': draw(st.sampled_from(['accept', 'accept', 'refuse'])), 'ms': draw(st.integers(1, 60))},
+        'indirect': {'kind': draw(st.sampled_from(['pierce', 'cannot', 'silent'])), 'ms': draw(st.integers(1, 60)),
+                     'obf': draw(st.booleans())},
+        'ev_hops': draw(st.sampled_from([0, 0, 1])),
+    }
+
+
 def run_shard(ctx):
     cases = table()
     ctx.extra['enumerated_table_cases'] = len(cases) if ctx.shard == 0 else 0
@@ -1645,6 +1968,7 @@ def run_shard(ctx):
     ctx.explore(request_strategy(), n)
     ctx.explore(reverse_strategy(), max(20, n // 20), salt=1)
     ctx.explore(multi_strategy(), max(40, n // 10), salt=2)
+    ctx.explore(reuse_strategy(), max(40, n // 10), salt=3)
 
 
 def _req(mode, dkind, d_ms, ikind, i_ms, cancel_ms=None, **kw):
